@@ -160,4 +160,8 @@ static inline uint32_t vp_rev32(uint32_t x)
 static inline uint64_t vp_rev64(uint64_t x)
 { return ((uint64_t)vp_rev32((uint32_t)x) << 32) | vp_rev32((uint32_t)(x >> 32)); }
 
+/* IEEE-754 bit patterns (floats are compared as integers: bit-exact) */
+static inline uint32_t vp_f32_bits(float f) { union { float f; uint32_t u; } x; x.f = f; return x.u; }
+static inline uint64_t vp_f64_bits(double d) { union { double d; uint64_t u; } x; x.d = d; return x.u; }
+
 #endif /* VP_SPEC_H */
